@@ -105,13 +105,18 @@ class Calibration(TorchFunctionMode):
 
     def __enter__(self):
         super().__enter__()
-        self.pre_handle = register_module_forward_pre_hook(self.calibrate_input)
-        self.post_handle = register_module_forward_hook(self.calibrate_output)
+        # The same context can be entered several times: keep the handles of each level
+        if not hasattr(self, "hook_handles"):
+            self.hook_handles = []
+        pre_handle = register_module_forward_pre_hook(self.calibrate_input)
+        post_handle = register_module_forward_hook(self.calibrate_output)
+        self.hook_handles.append((pre_handle, post_handle))
 
     def __exit__(self, exc_type, exc_val, exc_tb):
         super().__exit__(exc_type, exc_val, exc_tb)
-        self.pre_handle.remove()
-        self.post_handle.remove()
+        pre_handle, post_handle = self.hook_handles.pop()
+        pre_handle.remove()
+        post_handle.remove()
 
     def calibrate_input(self, module: torch.nn.Module, input):
         if isinstance(module, QModuleMixin) and module.activation_qtype is not None:
